@@ -2,7 +2,6 @@ package lib
 
 import (
 	"bufio"
-	"bytes"
 	"errors"
 	"fmt"
 	"io"
@@ -85,12 +84,25 @@ const (
 
 var ErrStubFailed = errors.New("stub minifier: failed after half of the output")
 
+// asciiUpper maps byte by byte, so the result does not depend on where a multi-byte
+// character is cut by the chunking (bytes.ToUpper decodes UTF-8 and would).
+func asciiUpper(b []byte) []byte {
+	out := make([]byte, len(b))
+	for i, c := range b {
+		if 'a' <= c && c <= 'z' {
+			c -= 'a' - 'A'
+		}
+		out[i] = c
+	}
+	return out
+}
+
 func streamStub(_ *minify.M, w io.Writer, r io.Reader, _ map[string]string) error {
 	buf := make([]byte, 7)
 	for {
 		n, err := r.Read(buf)
 		if n > 0 {
-			if _, werr := w.Write(bytes.ToUpper(buf[:n])); werr != nil {
+			if _, werr := w.Write(asciiUpper(buf[:n])); werr != nil {
 				return werr
 			}
 		}
@@ -113,7 +125,7 @@ func earlyStub(_ *minify.M, w io.Writer, r io.Reader, _ map[string]string) error
 	if err != nil && err != io.EOF && err != io.ErrUnexpectedEOF {
 		return err
 	}
-	_, err = w.Write(bytes.ToUpper(buf[:n]))
+	_, err = w.Write(asciiUpper(buf[:n]))
 	return err
 }
 
@@ -157,7 +169,8 @@ type Op struct {
 	ContentLength string
 	Status        int // explicit WriteHeader(Status) before the body when != 0
 	Method        string
-	EarlyHints    bool // WriteHeader(103) before the Content-Type of the final response is set
+	EarlyHints    bool        // WriteHeader(103) before the Content-Type of the final response is set
+	ReqHeader     http.Header // request headers (what the client sent must not change what the handler's response becomes)
 
 	// observations
 	Out        []byte
@@ -300,7 +313,7 @@ func (op *Op) Exec(y *sim.Point, m *minify.M) {
 		op.Out = op.OutAtClose
 	case ERespWriter:
 		op.RW = sim.NewSimResponseWriter(op.W)
-		req := &http.Request{RequestURI: op.RequestURI, Method: op.Method}
+		req := &http.Request{RequestURI: op.RequestURI, Method: op.Method, Header: op.ReqHeader}
 		rw := m.ResponseWriter(op.RW, req)
 		op.handle(y, rw)
 		y.Yield("close", 0)
@@ -313,7 +326,7 @@ func (op *Op) Exec(y *sim.Point, m *minify.M) {
 		op.Out = op.OutAtClose
 	case EMiddleware, EMiddleErr:
 		op.RW = sim.NewSimResponseWriter(op.W)
-		req := &http.Request{RequestURI: op.RequestURI, Method: op.Method}
+		req := &http.Request{RequestURI: op.RequestURI, Method: op.Method, Header: op.ReqHeader}
 		next := http.HandlerFunc(func(w http.ResponseWriter, r *http.Request) { op.handle(y, w) })
 		var h http.Handler
 		if op.Entry == EMiddleware {
